@@ -77,6 +77,7 @@ SCRIPTS = {
     'crashing-script-name': "from pedal import *\nundefined_helper(5)\n",
     'override-parent': "from pedal import *\nfrom pedal.sandbox.feedbacks import runtime_error\nruntime_error.override(title='Oops', message_template='Something broke: {exception_name}')\nassert_equal(call('add', 1, 2), 3)\n",
     'override-child': "from pedal import *\nfrom pedal.sandbox.feedbacks import name_error, index_error\nname_error.override(title='Unknown name!')\nindex_error.override(title='Bad index!', muted=False)\nassert_equal(call('add', 1, 2), 3)\n",
+    'override-child-template': "from pedal import *\nfrom pedal.sandbox.feedbacks import name_error, index_error, type_error\nname_error.override(message_template='Name trouble: {exception_name}')\nindex_error.override(message_template='Index trouble', justification='reworded')\ntype_error.override(muted=False, message_template='Type trouble')\nassert_equal(call('add', 1, 2), 3)\n",
     'override-parent-then-child': "from pedal import *\nfrom pedal.sandbox.feedbacks import runtime_error, name_error, index_error\nruntime_error.override(title='Parent')\nname_error.override(title='Child name')\nindex_error.override(title='Child index')\n",
     'override-twice': "from pedal import *\nfrom pedal.source.feedbacks import syntax_error\nsyntax_error.override(message_template='first')\nsyntax_error.override(message_template='second {lineno}')\n",
     'override-core': "from pedal import *\nfrom pedal.core.commands import set_correct as sc_class\nsc_class.override(title='Yay', message_template='Custom success')\nassert_equal(call('add', 1, 2), 3)\nset_success()\n",
@@ -87,6 +88,7 @@ SCRIPTS = {
     'formatter-text': "from pedal import *\nfrom pedal.core.formatting import TextFormatter\nset_formatter(TextFormatter)\nassert_equal(call('add', 1, 2), 4)\n",
     'mock-function': "from pedal import *\nfrom pedal.sandbox.commands import mock_function, block_function, allow_function\nmock_function('print', lambda *a, **k: None)\nblock_function('len')\nrun()\nassert_equal(call('add', 1, 2), 3)\n",
     'block-module': "from pedal import *\nfrom pedal.sandbox.commands import block_module, allow_module, mock_module\nblock_module('math')\nblock_module('random')\nrun()\n",
+    'block-sys-and-time': "from pedal import *\nfrom pedal.sandbox.commands import block_module\nblock_module('sys')\nblock_module('time')\nrun()\nassert_equal(call('add', 1, 2), 3)\n",
     'mock-module': "from pedal import *\nfrom pedal.sandbox.commands import mock_module\nclass FakeMath:\n    def floor(self, v):\n        return 99\nmock_module('math', {'floor': lambda v: 99}, 'mathy')\nrun()\nassert_equal(call('add', 1.5, 2), 3)\n",
     'sections-left-open': "from pedal import *\nfrom pedal.source import separate_into_sections, next_section\nfrom pedal.tifa import tifa_analysis\nseparate_into_sections()\nnext_section()\nverify()\ntifa_analysis()\n",
     'sections-independent': "from pedal import *\nfrom pedal.source import separate_into_sections, next_section\nseparate_into_sections(independent=True)\nnext_section()\nnext_section()\nrun()\n",
@@ -121,6 +123,15 @@ DESIGNED_PAIRS = [
     [('pools-override', 'wrong'), ('plain-assert', 'wrong'), ('plain-assert', 'crash')],
     [('pools-two', 'crash'), ('plain-assert', 'crash'), ('static-checks', 'name-error')],
     [('clears-report-and-suppresses', 'crash'), ('plain-assert', 'crash'), ('plain-assert', 'syntax')],
+    # a class whose field was overridden while it only inherited it must follow its parent again afterwards
+    [('override-child', 'name-error'), ('override-parent', 'name-error'), ('override-parent', 'crash'), ('plain-assert', 'name-error')],
+    [('override-parent-then-child', 'name-error'), ('plain-assert', 'name-error'), ('override-parent', 'name-error'), ('plain-assert', 'crash')],
+    [('override-tifa', 'unused-var'), ('override-parent', 'name-error'), ('static-checks', 'unused-var')],
+    [('override-child-template', 'name-error'), ('override-parent', 'name-error'), ('override-parent', 'crash'), ('override-parent', 'type-error')],
+    [('override-child-template', 'crash'), ('plain-assert', 'crash'), ('override-parent', 'crash')],
+    # the modules pedal itself patches by name or by object are blocked by the script
+    [('block-sys-and-time', 'good'), ('plain-assert', 'good'), ('plain-assert', 'exit')],
+    [('block-sys-and-time', 'exit'), ('inputs-and-output', 'reads-input')],
 ]
 
 
